@@ -116,25 +116,30 @@ func (fr *Frame) bumpAlloc(st *State) {
 	st.ac = n
 }
 
+// lock ghost state is per thread: callees are assumed lock-balanced, so an unknown call does not
+// change which locks this thread holds.
+func havocExempt(k string) bool {
+	return strings.HasPrefix(k, "v:") || k == "g:lockw" || k == "g:lockr"
+}
+
 func (fr *Frame) havocAll(st *State) {
-	for k := range st.heap {
-		if strings.HasPrefix(k, "v:") {
-			continue
+	// exempt maps keep their value: resolve them before the merge history is dropped
+	for k, srt := range heapSorts {
+		if havocExempt(k) {
+			st.heap[k] = st.hget(k, srt)
 		}
-		st.heap[k] = Fresh("Hh."+k, heapSorts[k])
 	}
-	// maps never mentioned so far must be havocked too: mark with a generation bump
+	for k := range st.heap {
+		if !havocExempt(k) {
+			delete(st.heap, k)
+		}
+	}
+	// every other map, including ones not mentioned so far, reads as a new generation
+	st.epoch = newEpoch()
+	st.mergeOf = nil
 	fr.c.notes = append(fr.c.notes, "havoc-all in "+fr.fn.Name())
 	if curLog != nil {
 		*curLog = append(*curLog, writeRec{"*", nil})
-	}
-	for k := range heapSorts {
-		if strings.HasPrefix(k, "v:") {
-			continue
-		}
-		if _, ok := st.heap[k]; !ok {
-			st.heap[k] = Fresh("Hh."+k, heapSorts[k])
-		}
 	}
 }
 
@@ -239,6 +244,11 @@ func (fr *Frame) applyContract(st *State, in ssa.Instruction, ct *Contract, sig 
 			continue
 		}
 		fr.havocLocs(st, locs)
+		for _, l := range locs {
+			if l.mapName == "*" {
+				fr.restoreLocked(pre, st)
+			}
+		}
 	}
 	allocates := !ct.Pure
 	if allocates {
@@ -418,6 +428,7 @@ func (fr *Frame) execBuiltin(st *State, in ssa.Instruction, b *ssa.Builtin, cc *
 	case "copy":
 		return fr.execCopy(st, args[0], args[1], cc.Args[1].Type(), rt)
 	case "delete":
+		fr.guardCheck(st, in, args[0].Guard, true, "delete")
 		mt := cc.Args[0].Type().Underlying().(*types.Map)
 		c.mapDelete(st, args[0].X, mt, args[1])
 		return &Val{K: VTuple}
@@ -803,6 +814,13 @@ func (fr *Frame) execBlock(b *ssa.BasicBlock, st *State, edge func(*ssa.BasicBlo
 				res = append(res, fr.get(st, r))
 			}
 			fr.exits = append(fr.exits, exitRec{st, res})
+			if c.dry == 0 && fr.depth == 0 {
+				// vacuity guard: the assumptions must not refute this return path
+				cv := c.oblige(fr, st, "cover", fmt.Sprintf("cover/return#%d", c.returnOrdinal(fr.fn, x)), False, nil, "this return is not refuted by the assumptions (vacuity guard)", true)
+				if cv != nil {
+					cv.ExpectSat = true
+				}
+			}
 			return true
 		case *ssa.Panic:
 			if fr.contract == nil || !fr.contract.NoSafety {
@@ -1187,7 +1205,7 @@ func (fr *Frame) dynamicSplit(st *State, in ssa.Instruction, fv *Val, sig *types
 	rest := st.pc
 	for _, n := range names {
 		fn := fr.fnConsts[n]
-		if !types.Identical(fn.Signature, sig) {
+		if fn.Signature.Recv() != nil || !types.Identical(fn.Signature, sig) {
 			continue
 		}
 		id := fnID(n)
@@ -1245,4 +1263,35 @@ func tupleElems(r *Val, sig *types.Signature) []*Val {
 		return []*Val{r}
 	}
 	return r.Fs
+}
+
+// returnOrdinal numbers the return statements of a function in source order.
+func (c *FnCtx) returnOrdinal(fn *ssa.Function, r *ssa.Return) int {
+	type it struct {
+		r   *ssa.Return
+		pos token.Pos
+		seq int
+	}
+	var all []it
+	seq := 0
+	for _, b := range fn.Blocks {
+		for _, in := range b.Instrs {
+			if x, ok := in.(*ssa.Return); ok {
+				seq++
+				all = append(all, it{x, x.Pos(), seq})
+			}
+		}
+	}
+	sort.SliceStable(all, func(i, j int) bool {
+		if all[i].pos != all[j].pos && all[i].pos != token.NoPos && all[j].pos != token.NoPos {
+			return all[i].pos < all[j].pos
+		}
+		return all[i].seq < all[j].seq
+	})
+	for i, x := range all {
+		if x.r == r {
+			return i + 1
+		}
+	}
+	return 0
 }
